@@ -8,26 +8,6 @@ Worker machine: `Model/Mailbox.lean` (`_handle_cancel`, `_get_next_ready_task`, 
 -/
 namespace BqVerif.Runtime
 
-/-- operations of one worker: an incoming message, or one iteration of its main loop -/
-inductive WOp where
-  | recv (m : Msg)
-  | step
-
-def Worker.applyOp (tbl : Table) (w : Worker) : WOp → Worker
-  | .recv m => w.recv m
-  | .step => (w.step tbl).w
-
-theorem applyOp_mono (tbl : Table) (w : Worker) (op : WOp) : Mono w (w.applyOp tbl op) := by
-  cases op with
-  | recv m => exact recv_mono w m
-  | step => exact step_mono tbl w
-
-theorem run_mono (tbl : Table) (w : Worker) (ops : List WOp) :
-    Mono w (ops.foldl (Worker.applyOp tbl) w) := by
-  induction ops generalizing w with
-  | nil => exact Mono.refl w
-  | cons op ops ih => exact (applyOp_mono tbl w op).trans (ih _)
-
 /-- processing `CANCEL a` records `a` -/
 theorem C12_cancel_recorded (w : Worker) (a : Addr) : a ∈ (w.recv (.cancel a)).cancelled := by
   simp only [Worker.recv]
